@@ -136,6 +136,41 @@ class Recorder:
         self.events.append(ev)
         return ev
 
+    def interrupted_decode(self, obj, syndrome, k):
+        """decode() with a KeyboardInterrupt delivered at the k-th line of library
+        code it executes (the places where a real Ctrl-C can land).  Recorded as an
+        "interrupted" event; if the call finishes before line k it is an ordinary
+        decode event."""
+        import contextlib, io, sys
+        from .c12_points import Interrupter
+        syn = np.array(syndrome, dtype=np.uint8)
+        before = syn.copy()
+        tb = tables(self.em, self.code, self.cfg['p'])
+        hook = Interrupter(k)
+        fired = False
+        try:
+            sys.settrace(hook)
+            try:
+                with contextlib.redirect_stdout(io.StringIO()):
+                    self.objs[obj].decode(syn)
+            finally:
+                sys.settrace(None)
+        except KeyboardInterrupt:
+            fired = True
+        except Exception:
+            fired = False
+        if not fired:
+            return None
+        ta = tables(self.em, self.code, self.cfg['p'])
+        ev = {'kind': 'interrupted', 'obj': obj,
+              'syn': [int(i) for i in np.nonzero(before.ravel())[0]],
+              'corr': {'x': [], 'z': []}, 'len': 0, 'binary': False, 'raised': '',
+              'syn_intact': bool(np.array_equal(syn, before)),
+              'tables_intact': all(np.array_equal(a, b) for a, b in zip(ta, tb)),
+              'where': hook.where}
+        self.events.append(ev)
+        return ev
+
     def record(self, complete=None, sector='all'):
         dec = self.cfg['decoder']
         n = self.code.n
